@@ -27,7 +27,7 @@ def key(l):
     m=re.match(r'(SB\d*)-C(\d+)-(\d+)',l); return (int(m.group(1)[2:] or 1),int(m.group(2)),int(m.group(3)))
 lines={}
 for f in (final,part):
-    for l in open(f):
+    for l in open(f, errors="replace"):
         if l.startswith('SB'): lines[l.split()[0]]=l
 open(final,'w').write(''.join(sorted(lines.values(),key=key)))
 PY
